@@ -36,7 +36,13 @@ def significant(toks):
 
 EDITS = ['delete', 'duplicate', 'swap', 'replace_kind', 'literal_kind', 'indent_line',
          'indent_block', 'truncate', 'stray', 'keyword_swap', 'join_lines', 'replace_type',
-         'reuse_name', 'clash_name', 'doc_ref', 'huge_number']
+         'reuse_name', 'clash_name', 'doc_ref', 'huge_number', 'arglist']
+KWNAMES = ['min_length', 'max_length', 'pattern', 'min_value', 'max_value', 'min_items', 'max_items',
+           'format', 'data_type', 'key_data_type', 'value_data_type', 'nope']
+ARG_TYPES = ['String', 'Int32', 'UInt32', 'Int64', 'UInt64', 'Float32', 'Float64', 'List', 'Map', 'Timestamp',
+             'Bytes', 'Boolean']
+ARG_VALUES = ['0', '1', '2', '-1', '1.5', '0.0', '"a"', '"%Y"', '"[a-z]+"', 'true', 'null', 'String', 'Int32',
+              'x', 'List(String)']
 DEF_KEYWORDS = ('struct', 'union', 'union_closed', 'alias', 'annotation', 'annotation_type', 'route')
 HUGE = ['1' + '0' * 400, '-1' + '0' * 400, '1e999', '-1e999', '1e-999', '0.' + '0' * 400 + '1',
         '1' + '0' * 400 + '.5', '9' * 30, '1e308', '1.8e308', '340282346638528859811704183484516925440',
@@ -131,6 +137,34 @@ def mutate(text, rnd, other_text=None):
         if nums:
             i = rnd.choice(nums)
         toks[i] = rnd.choice(HUGE)
+    elif e == 'arglist':
+        # argument lists mixing positional and keyword arguments: optional attributes given by
+        # position, repeated as keywords, surplus and unknown keywords, on built-in and user types
+        def make_arg():
+            if rnd.random() < 0.5:
+                return rnd.choice(ARG_VALUES)
+            return '%s=%s' % (rnd.choice(KWNAMES), rnd.choice(ARG_VALUES))
+        opens = [j for a, j in enumerate(sig[1:], 1) if toks[j] == '(' and kind_of(toks[sig[a - 1]]) == 'id']
+        bare = [j for a, j in enumerate(sig[:-1]) if toks[j] in ARG_TYPES and toks[sig[a + 1]] != '(']
+        if opens and (not bare or rnd.random() < 0.5):
+            j = rnd.choice(opens)
+            if rnd.random() < 0.5:
+                toks.insert(j + 1, ''.join(make_arg() + ', ' for _ in range(rnd.choice([1, 1, 2]))))
+            else:
+                depth, k = 0, j
+                while k < len(toks):
+                    if toks[k] == '(':
+                        depth += 1
+                    elif toks[k] == ')':
+                        depth -= 1
+                        if depth == 0:
+                            break
+                    k += 1
+                if k < len(toks):
+                    toks.insert(k, ''.join(', ' + make_arg() for _ in range(rnd.choice([1, 1, 2]))))
+        elif bare:
+            j = rnd.choice(bare)
+            toks[j] = '%s(%s)' % (toks[j], ', '.join(make_arg() for _ in range(rnd.choice([1, 2, 2, 3, 4]))))
     elif e == 'splice':
         o = tokenize(other_text)
         so = significant(o) or [0]
